@@ -101,4 +101,37 @@ var props = []Prop{
 		Stubs:       []string{"none for merge"},
 		Assumptions: commonAssumptions,
 	},
+	{
+		ID: "C06", Level: "model_checking",
+		Harnesses: []HSpec{
+			{Dir: "internal/pkg/output", Fn: "VF_C06_params"},
+			{Dir: "internal/pkg/output", Fn: "VF_C06_services"},
+			{Dir: "internal/pkg/output", Fn: "VF_C06_two", Split: 3},
+		},
+		Bounds:      []string{"an Output with 2 parameters (one todo), 2 services (one todo), 1 decorator; one or two references with symbolic names <= 3 (quick) / 4 (thorough) code points placed in every position: parameter pattern, constructor argument, call argument, field, decorator argument"},
+		Outside:     []string{"more than two simultaneous references", "run-time 'does not exist' errors of the generated container (consequence of this check plus the runtime contract)"},
+		Stubs:       []string{"none"},
+		Assumptions: commonAssumptions,
+	},
+	{
+		ID: "C07", Level: "model_checking",
+		Harnesses: []HSpec{
+			{Dir: "internal/pkg/output", Fn: "VF_C07_cycles", Split: 8},
+			{Dir: "internal/pkg/output", Fn: "VF_C07_params", Split: 8},
+		},
+		Bounds:      []string{"cycles: 2 services, each with an optional tag, @service slot and !tagged slot, one decorator (tag, @service slot, !tagged slot); params: 1 service + 2 parameters + decorator with %param% slots; every name a symbolic string of <= 2 (quick) / 3 (thorough) code points, slots may name anything incl. the element itself or a dangling name"},
+		Outside:     []string{"how many cycles gonum enumerates and their order (the graph library is summarised: non-empty iff cyclic, one cycle through every node on one)", "larger graphs", "termination of parameter evaluation at run time"},
+		Stubs:       []string{"gontainer-helpers/v3/graph (gonum): abstract graph with exact reachability; container/internal/graph (id scheme, normalizeCycle, CircularDepsToError) is executed"},
+		Assumptions: commonAssumptions,
+	},
+	{
+		ID: "C05", Level: "model_checking",
+		Harnesses: []HSpec{
+			{Dir: "internal/pkg/output", Fn: "VF_C05_scopes", Split: 8},
+		},
+		Bounds:      []string{"2 (quick) / 3 (thorough) services with every assignment of {unset, shared, contextual, non_shared}, optional tag / @service / !tagged slot each, one decorator; names symbolic <= 2 / 3 code points"},
+		Outside:     []string{"instance identity over Get histories and resolution of the default scope: implemented by the runtime library, not by gontainer", "the scope keyword -> runtime setter mapping in the template (template stage)"},
+		Stubs:       []string{"gontainer-helpers/v3/graph as in C07"},
+		Assumptions: commonAssumptions,
+	},
 }
